@@ -7,7 +7,9 @@ import (
 	"math/rand"
 	"os"
 	"path/filepath"
+	"runtime"
 	"strings"
+	"sync"
 
 	"github.com/AdguardTeam/urlfilter"
 	"github.com/AdguardTeam/urlfilter/filterlist"
@@ -231,157 +233,204 @@ func cmdReplayStorage(args []string) error {
 	noise := argInt(m, "noise", 0) == 1
 	evals, mism, yielded, noisy := 0, 0, 0, 0
 	var samples []map[string]any
-	for ci := range recs {
-		c := &recs[ci]
-		rls, err := renderLists(c, false, false)
-		if err != nil {
-			return err
+	var mu sync.Mutex
+	var firstErr error
+	workers := runtime.NumCPU()
+	if workers > 12 {
+		workers = 12
+	}
+	var wg sync.WaitGroup
+	next := make(chan int, 64)
+	go func() {
+		for ci := range recs {
+			next <- ci
 		}
-		bad := func(store, why string, exp, got any) {
-			mism++
-			cause := "other"
-			for _, L := range c.Lists {
-				for _, l := range L.Lines {
-					if l.Body > 4000 {
-						cause = "line-longer-than-read-buffer"
+		close(next)
+	}()
+	for w := 0; w < workers; w++ {
+		wg.Add(1)
+		wdir := filepath.Join(dir, fmt.Sprintf("w%d", w))
+		_ = os.MkdirAll(wdir, 0o700)
+		go func(dir string) {
+			defer wg.Done()
+			for ci := range next {
+				if err := func() error {
+					c := &recs[ci]
+					rls, err := renderLists(c, false, false)
+					if err != nil {
+						return err
 					}
-				}
-			}
-			out.write(map[string]any{"store": store, "why": why, "expected": exp, "got": got, "cause": cause, "case": c})
-		}
-		for li, rl := range rls {
-			if len(rl.content) != c.Sizes[li] {
-				return fmt.Errorf("renderer: list %d has %d bytes, the case says %d", li, len(rl.content), c.Sizes[li])
-			}
-		}
-		var perStore [2][]scanned
-		var perStoreAns [2]string
-		for si, store := range []string{"string", "file"} {
-			evals++
-			st, cleanup, err := makeStorage(rls, store == "file", dir)
-			if err != nil {
-				return err
-			}
-			sc, pv := scanStorage(st)
-			perStore[si] = sc
-			if pv != "" {
-				bad(store, "panic while scanning: "+pv, nil, nil)
-				cleanup()
-				continue
-			}
-			// scan sequence == reference
-			if len(sc) != len(c.Scan) {
-				bad(store, "number of scanned rules", len(c.Scan), len(sc))
-			}
-			seen := map[int64]int{}
-			for n := 0; n < len(sc) && n < len(c.Scan); n++ {
-				e := c.Scan[n]
-				li := -1
-				for i, L := range c.Lists {
-					if L.ID == e.List {
-						li = i
+					bad := func(store, why string, exp, got any) {
+						mu.Lock()
+						defer mu.Unlock()
+						mism++
+						cause := "other"
+						for _, L := range c.Lists {
+							for _, l := range L.Lines {
+								if l.Body > 4000 {
+									cause = "line-longer-than-read-buffer"
+								}
+							}
+						}
+						out.write(map[string]any{"store": store, "why": why, "expected": exp, "got": got, "cause": cause, "case": c})
 					}
-				}
-				wantText := rls[li].texts[e.Line-1]
-				wantID := listIDs[e.List]
-				wantOff := int(e.Idx[1].(float64))
-				g := sc[n]
-				gotID, gotOff := int(int32(g.idx>>32)), int(uint32(g.idx))
-				switch {
-				case g.kind != e.Kind || g.text != wantText || g.id != wantID:
-					bad(store, fmt.Sprintf("scanned rule %d", n+1), fmt.Sprintf("%s %.40q id=%d", e.Kind, wantText, wantID), fmt.Sprintf("%s %.40q id=%d", g.kind, g.text, g.id))
-				case gotID != wantID || gotOff != wantOff:
-					bad(store, fmt.Sprintf("index of rule %d", n+1), fmt.Sprintf("(%d,%d)", wantID, wantOff), fmt.Sprintf("(%d,%d) raw %d", gotID, gotOff, g.idx))
-				}
-				if prev, dup := seen[g.idx]; dup {
-					bad(store, "index not injective", nil, fmt.Sprintf("rules %d and %d share index %d", prev+1, n+1, g.idx))
-				}
-				seen[g.idx] = n
-			}
-			// retrieval: cold cache on a fresh storage, then warm
-			st2, cleanup2, err := makeStorage(rls, store == "file", dir)
-			if err != nil {
-				return err
-			}
-			for pass := 0; pass < 2; pass++ {
-				for n, g := range sc {
-					yielded++
-					var r rules.Rule
-					var rerr error
-					pv := safeCall(func() { r, rerr = st2.RetrieveRule(g.idx) })
-					switch {
-					case pv != "":
-						bad(store, "panic in RetrieveRule: "+pv, nil, nil)
-					case rerr != nil || r == nil:
-						bad(store, fmt.Sprintf("RetrieveRule of scanned rule %d (pass %d)", n+1, pass), g.text[:min(40, len(g.text))], fmt.Sprint(rerr))
-					case kindOfRule(r, nil) != g.kind || r.Text() != g.text || r.GetFilterListID() != g.id:
-						bad(store, fmt.Sprintf("RetrieveRule of scanned rule %d (pass %d)", n+1, pass), fmt.Sprintf("%s %.40q id=%d", g.kind, g.text, g.id),
-							fmt.Sprintf("%s %.40q id=%d", kindOfRule(r, nil), r.Text(), r.GetFilterListID()))
+					for li, rl := range rls {
+						if len(rl.content) != c.Sizes[li] {
+							return fmt.Errorf("renderer: list %d has %d bytes, the case says %d", li, len(rl.content), c.Sizes[li])
+						}
 					}
-				}
-			}
-			ans, pv := engineAnswers(st2, rls)
-			if pv != "" {
-				bad(store, "panic in engine: "+pv, nil, nil)
-			}
-			perStoreAns[si] = ans
-			cleanup2()
-			cleanup()
-		}
-		// String and File are indistinguishable
-		if fmt.Sprint(perStore[0]) != fmt.Sprint(perStore[1]) {
-			bad("string-vs-file", "scan sequences differ", len(perStore[0]), len(perStore[1]))
-		}
-		if perStoreAns[0] != perStoreAns[1] {
-			bad("string-vs-file", "engine answers differ", perStoreAns[0], perStoreAns[1])
-		}
-		if noise {
-			// C12: without the noise lines, and with the other line ending, nothing changes
-			hasNoise := false
-			for _, L := range c.Lists {
-				for _, l := range L.Lines {
-					if l.Kind == "comment" || l.Kind == "blank" || l.Kind == "bad" {
-						hasNoise = true
+					var perStore [2][]scanned
+					var perStoreAns [2]string
+					for si, store := range []string{"string", "file"} {
+						mu.Lock()
+						evals++
+						mu.Unlock()
+						st, cleanup, err := makeStorage(rls, store == "file", dir)
+						if err != nil {
+							return err
+						}
+						sc, pv := scanStorage(st)
+						perStore[si] = sc
+						if pv != "" {
+							bad(store, "panic while scanning: "+pv, nil, nil)
+							cleanup()
+							continue
+						}
+						// scan sequence == reference
+						if len(sc) != len(c.Scan) {
+							bad(store, "number of scanned rules", len(c.Scan), len(sc))
+						}
+						seen := map[int64]int{}
+						for n := 0; n < len(sc) && n < len(c.Scan); n++ {
+							e := c.Scan[n]
+							li := -1
+							for i, L := range c.Lists {
+								if L.ID == e.List {
+									li = i
+								}
+							}
+							wantText := rls[li].texts[e.Line-1]
+							wantID := listIDs[e.List]
+							wantOff := int(e.Idx[1].(float64))
+							g := sc[n]
+							gotID, gotOff := int(int32(g.idx>>32)), int(uint32(g.idx))
+							switch {
+							case g.kind != e.Kind || g.text != wantText || g.id != wantID:
+								bad(store, fmt.Sprintf("scanned rule %d", n+1), fmt.Sprintf("%s %.40q id=%d", e.Kind, wantText, wantID), fmt.Sprintf("%s %.40q id=%d", g.kind, g.text, g.id))
+							case gotID != wantID || gotOff != wantOff:
+								bad(store, fmt.Sprintf("index of rule %d", n+1), fmt.Sprintf("(%d,%d)", wantID, wantOff), fmt.Sprintf("(%d,%d) raw %d", gotID, gotOff, g.idx))
+							}
+							if prev, dup := seen[g.idx]; dup {
+								bad(store, "index not injective", nil, fmt.Sprintf("rules %d and %d share index %d", prev+1, n+1, g.idx))
+							}
+							seen[g.idx] = n
+						}
+						// retrieval: cold cache on a fresh storage, then warm
+						st2, cleanup2, err := makeStorage(rls, store == "file", dir)
+						if err != nil {
+							return err
+						}
+						for pass := 0; pass < 2; pass++ {
+							for n, g := range sc {
+								mu.Lock()
+								yielded++
+								mu.Unlock()
+								var r rules.Rule
+								var rerr error
+								pv := safeCall(func() { r, rerr = st2.RetrieveRule(g.idx) })
+								switch {
+								case pv != "":
+									bad(store, "panic in RetrieveRule: "+pv, nil, nil)
+								case rerr != nil || r == nil:
+									bad(store, fmt.Sprintf("RetrieveRule of scanned rule %d (pass %d)", n+1, pass), g.text[:min(40, len(g.text))], fmt.Sprint(rerr))
+								case kindOfRule(r, nil) != g.kind || r.Text() != g.text || r.GetFilterListID() != g.id:
+									bad(store, fmt.Sprintf("RetrieveRule of scanned rule %d (pass %d)", n+1, pass), fmt.Sprintf("%s %.40q id=%d", g.kind, g.text, g.id),
+										fmt.Sprintf("%s %.40q id=%d", kindOfRule(r, nil), r.Text(), r.GetFilterListID()))
+								}
+							}
+						}
+						ans, pv := engineAnswers(st2, rls)
+						if pv != "" {
+							bad(store, "panic in engine: "+pv, nil, nil)
+						}
+						perStoreAns[si] = ans
+						cleanup2()
+						cleanup()
 					}
+					// String and File are indistinguishable
+					if fmt.Sprint(perStore[0]) != fmt.Sprint(perStore[1]) {
+						bad("string-vs-file", "scan sequences differ", len(perStore[0]), len(perStore[1]))
+					}
+					if perStoreAns[0] != perStoreAns[1] {
+						bad("string-vs-file", "engine answers differ", perStoreAns[0], perStoreAns[1])
+					}
+					if noise {
+						// C12: without the noise lines, and with the other line ending, nothing changes
+						hasNoise := false
+						for _, L := range c.Lists {
+							for _, l := range L.Lines {
+								if l.Kind == "comment" || l.Kind == "blank" || l.Kind == "bad" {
+									hasNoise = true
+								}
+							}
+						}
+						mu.Lock()
+						if hasNoise {
+							noisy++
+						}
+						mu.Unlock()
+						for _, variant := range []string{"denoised", "other-eol"} {
+							mu.Lock()
+							evals++
+							mu.Unlock()
+							rl2, err := renderLists(c, variant == "denoised", variant == "other-eol")
+							if err != nil {
+								return err
+							}
+							st3, cleanup3, err := makeStorage(rl2, false, dir)
+							if err != nil {
+								return err
+							}
+							sc3, pv := scanStorage(st3)
+							if pv != "" {
+								bad(variant, "panic while scanning: "+pv, nil, nil)
+							}
+							a, b := []string{}, []string{}
+							for _, g := range perStore[0] {
+								a = append(a, fmt.Sprintf("%s|%s|%d", g.kind, g.text, g.id))
+							}
+							for _, g := range sc3 {
+								b = append(b, fmt.Sprintf("%s|%s|%d", g.kind, g.text, g.id))
+							}
+							if strings.Join(a, "\n") != strings.Join(b, "\n") {
+								bad(variant, "scanned rules change", len(a), len(b))
+							}
+							ans3, pv := engineAnswers(st3, rls)
+							if pv != "" || ans3 != perStoreAns[0] {
+								bad(variant, "engine answers change "+pv, perStoreAns[0], ans3)
+							}
+							cleanup3()
+						}
+					}
+					mu.Lock()
+					if len(samples) < 4 && len(c.Scan) >= 2 && ci%397 == 9 {
+						samples = append(samples, map[string]any{"lists": c.Lists, "scan": c.Scan})
+					}
+					mu.Unlock()
+					return nil
+				}(); err != nil {
+					mu.Lock()
+					if firstErr == nil {
+						firstErr = err
+					}
+					mu.Unlock()
 				}
 			}
-			if hasNoise {
-				noisy++
-			}
-			for _, variant := range []string{"denoised", "other-eol"} {
-				evals++
-				rl2, err := renderLists(c, variant == "denoised", variant == "other-eol")
-				if err != nil {
-					return err
-				}
-				st3, cleanup3, err := makeStorage(rl2, false, dir)
-				if err != nil {
-					return err
-				}
-				sc3, pv := scanStorage(st3)
-				if pv != "" {
-					bad(variant, "panic while scanning: "+pv, nil, nil)
-				}
-				a, b := []string{}, []string{}
-				for _, g := range perStore[0] {
-					a = append(a, fmt.Sprintf("%s|%s|%d", g.kind, g.text, g.id))
-				}
-				for _, g := range sc3 {
-					b = append(b, fmt.Sprintf("%s|%s|%d", g.kind, g.text, g.id))
-				}
-				if strings.Join(a, "\n") != strings.Join(b, "\n") {
-					bad(variant, "scanned rules change", len(a), len(b))
-				}
-				ans3, pv := engineAnswers(st3, rls)
-				if pv != "" || ans3 != perStoreAns[0] {
-					bad(variant, "engine answers change "+pv, perStoreAns[0], ans3)
-				}
-				cleanup3()
-			}
-		}
-		if len(samples) < 4 && len(c.Scan) >= 2 && ci%397 == 9 {
-			samples = append(samples, map[string]any{"lists": c.Lists, "scan": c.Scan})
-		}
+		}(wdir)
+	}
+	wg.Wait()
+	if firstErr != nil {
+		return firstErr
 	}
 	summary(map[string]any{"cases": len(recs), "evaluations": evals, "mismatches": mism, "retrievals": yielded, "noisy": noisy, "samples": samples})
 	return nil
